@@ -779,9 +779,8 @@ func stringInvoke(
 		return ugo.Undefined, ugo.ErrNotCallable
 	}
 	if c.VM() == nil {
-		if _, ok := callee.(*ugo.CompiledFunction); ok {
-			return ugo.Undefined, ugo.ErrNotCallable
-		}
+		// Invoker requires a VM.
+		return ugo.Undefined, ugo.ErrNotCallable
 	}
 
 	inv := ugo.NewInvoker(c.VM(), callee)
